@@ -617,6 +617,9 @@ def main(tier):
     # its per-level scratch vectors (rules shared with C02)
     import c02
     c02.rule_AB(ck, {k: v for k, v in units.items() if k in ('rt_builtin', 'mpi_rt')})
+    # an application must not see what earlier ones left in overwritten outputs (even NaN / Inf): zero-coefficient overwrite of the backend primitives (shared with C07)
+    import c07
+    c07.rule_zero(ck, {k: v for k, v in units.items() if k == 'rt_builtin'}, floor=8)
     ck.assumptions += ['index arithmetic in range for all inputs and leaks on exception paths are not decided',
                        'arrays written only at the diagonal entry rely on the documented precondition of a structurally present diagonal']
     return ck.finish()
